@@ -25,7 +25,6 @@ RULES = [
     (r"^layout/A1=10$", "KF-C08-blank-inside-decimal-literal"),
     (r"^layout/A1=1\.5E\+3$", "KF-C08-blank-inside-decimal-literal"),
     (r"^rule-kind/exp/A1\*2$", "KF-C14-BinaryExp-always-string-kinded"),
-    (r"^mutations/HCIRCLE\(A1,A1\),A1,A1$", "KF-C15-HCIRCLE-trailing-comma-internal-error"),
     (r"^declared/(argument of|READ target|INPUT target|LINE INPUT target|subscript of a READ target)", "KF-C10-names-in-untraversed-positions-undeclared"),
     (r"^declared/(implicit string array|ELSE arm after ELSE IF)", "KF-C10-implicit-string-array-unsized"),
     (r"^user-text/comment with an odd quote", "KF-C13-odd-quote-in-comment-defeats-placeholder-substitution"),
